@@ -5941,23 +5941,24 @@ def _fill_rests_global(
             )
             part.add(rest, min_end_note.end.t, end_time)
 
-    if un_voc_staff.shape[0] != unique_voc_staff.shape[0]:
-        if un_voc_staff.shape[0] == 0:
-            diff = unique_voc_staff
-        else:
-            # View `un_voc_staff` and `unique_voc_staff` as 1-D structured arrays
-            x_sa = un_voc_staff.view([("", un_voc_staff.dtype)] * un_voc_staff.shape[1])
-            y_sa = unique_voc_staff.view(
-                [("", unique_voc_staff.dtype)] * unique_voc_staff.shape[1]
-            )
-            # Find rows in `unique_voc_staff` that are not in `un_voc_staff`
-            diff = np.setdiff1d(y_sa, x_sa)
-        for voice, staff in diff:
-            sym_dur = estimate_symbolic_duration(
-                end_time - start_time, part._quarter_durations[0]
-            )
-            rest = Rest(symbolic_duration=sym_dur, staff=staff, voice=voice)
-            part.add(rest, start_time, end_time)
+    # voices of the part that are silent in this measure (comparing the numbers
+    # of voices is not enough: a voice that only rests here masks a missing one)
+    if un_voc_staff.shape[0] == 0:
+        diff = unique_voc_staff
+    else:
+        # View `un_voc_staff` and `unique_voc_staff` as 1-D structured arrays
+        x_sa = un_voc_staff.view([("", un_voc_staff.dtype)] * un_voc_staff.shape[1])
+        y_sa = unique_voc_staff.view(
+            [("", unique_voc_staff.dtype)] * unique_voc_staff.shape[1]
+        )
+        # Find rows in `unique_voc_staff` that are not in `un_voc_staff`
+        diff = np.setdiff1d(y_sa, x_sa)
+    for voice, staff in diff:
+        sym_dur = estimate_symbolic_duration(
+            end_time - start_time, part._quarter_durations[0]
+        )
+        rest = Rest(symbolic_duration=sym_dur, staff=staff, voice=voice)
+        part.add(rest, start_time, end_time)
 
 
 def fill_rests(score_data: ScoreLike, measurewise=True) -> None:
